@@ -1,1 +1,3 @@
 module github.com/boombuler/barcode
+
+go 1.23.5
